@@ -14,6 +14,7 @@ import re
 from ..mir import deep_strip, tstr, strip_generics, canon, subterms, is_call, implies_ge, implies_lt
 from ..tables import c07_edges as T
 from .. import effects
+from ..bounds import Bounds
 
 CONFIGS = ("FULL", "XEN")
 THOROUGH_CONFIGS = ("MIN",)
@@ -105,7 +106,49 @@ def edges_of(prog, b, eff=None):
         yield e
 
 
+def _foreign_block(b, bb):
+    """a block spliced in from a KNOWN function along a new call edge (inline.py): its panic edges are that function's own, censused
+    (and reviewed) in its stand-alone body under its own name — not new edges of the caller"""
+    own = b.blocks[bb].get("owner")
+    if not own:
+        return False
+    mine = b.root if (b.kind == "Closure" and b.root) else b.id
+    return strip_generics(own) != strip_generics(mine)
+
+
 def _edges_of(prog, b):
+    for e in _edges_of_all(prog, b):
+        if _foreign_block(b, e["pos"][0]):
+            # an edge of an inlined KNOWN function: skipped unless that function discharges this kind of edge by a precondition on
+            # its caller (table category P: documented unchecked / contract API) — then every new call site owes the review
+            own = strip_generics(b.blocks[e["pos"][0]]["owner"])
+            if e["kind"] not in getattr(prog, "_c07_contract_kinds", {}).get(own, ()):
+                continue
+            e["foreign_owner"] = own
+        yield e
+
+
+def contract_kinds(prog):
+    """{function key: kinds of its own panic edges that are tabled as a caller precondition (category P)}"""
+    out = {}
+    prog._c07_contract_kinds = {}
+    for b in prog.bodies:
+        if b.j.get("impl_derived") or re.search(T.SKIP_BODIES, b.key):
+            continue
+        fnkey = strip_generics(b.root) if (b.kind == "Closure" and b.root) else b.key
+        for e in _edges_of_all(prog, b):
+            if _foreign_block(b, e["pos"][0]):
+                continue
+            if e["kind"] in ("DivisionByZero", "RemainderByZero"):
+                continue
+            row = table_lookup(b, fnkey, e)
+            if row and row[3] == "P":
+                out.setdefault(strip_generics(b.id if b.kind != "Closure" else b.root), set()).add(e["kind"])
+    prog._c07_contract_kinds = out
+    return out
+
+
+def _edges_of_all(prog, b):
     for pos, t in b.terms():
         ln = t.get("ln")
         mac = t.get("mac", "") if t.get("exp") else ""
@@ -170,7 +213,20 @@ def _mutable_self(b, param):
 def auto_discharge(b, e):
     """local lemmas; returns reason string or None"""
     if "ops_local" in e:
-        e = dict(e, ops=e["ops_local"])     # the dominating facts of a closure body are in its own term space
+        # the dominating facts of a closure body are in its own term space; failing that, decide the edge where the closure is
+        # defined: operands rewritten into the parent's terms, facts = the parent's at the point of use + the chain's own
+        why = _auto(b, dict(e, ops=e["ops_local"]))
+        if why:
+            return why
+        return _auto(b, dict(e, _facts=edge_facts(b, e)))
+    return _auto(b, e)
+
+
+def _F(b, e):
+    return e["_facts"] if "_facts" in e else b.facts_at(e["pos"])
+
+
+def _auto(b, e):
     k = e["kind"]
     if k == "silent_wrap" and e.get("callee", "").split("::")[-1].startswith(("wrapping_", "saturating_")):
         # explicitly non-panicking arithmetic cannot crash in any build; whether the wrapped / saturated VALUE is right is the
@@ -184,15 +240,34 @@ def auto_discharge(b, e):
             return f"constant shift amount {c} < 64"
         if rhs[0] == 'bin' and rhs[1] == 'BitAnd' and const_of(rhs[3]) is not None and const_of(rhs[3]) < 64:
             return f"shift amount masked with {const_of(rhs[3])} < 64"
+        # interval of the shift amount against the operand width (the width is the constant of the assert's own condition)
+        bits = None
+        cond = deep_strip(e.get("cond") or ('x',))
+        if cond[0] == 'bin' and cond[1] == 'Lt' and const_of(cond[3]) is not None:
+            bits = const_of(cond[3])
+        B = Bounds(_F(b, e))
+        u = B.ub(rhs)
+        if bits and u is not None and u < bits:
+            return f"shift amount at most {u} < {bits} (interval of `{tstr(rhs)[:60]}`)"
         return None
     if k == "Overflow:Sub":
         a, c = e["ops"]
         if is_call(deep_strip(a), "align_of") and const_of(c) == 1:
             return "align_of::<T>() >= 1 for every type"
-        facts = b.facts_at(e["pos"])
+        facts = _F(b, e)
         if implies_ge(facts, a, c):
             return f"dominated by a branch fact implying {tstr(deep_strip(a))} >= {tstr(deep_strip(c))}"
+        if Bounds(facts).le(c, a):
+            return f"`{tstr(deep_strip(c))[:60]}` <= `{tstr(deep_strip(a))[:60]}` by interval / ordering closure over the dominating facts"
         return None
+    if k == "Overflow:Add":
+        a, c = e["ops"]
+        why = Bounds(_F(b, e)).add_fits(a, c)
+        return why
+    if k == "Overflow:Mul":
+        a, c = e["ops"]
+        why = Bounds(_F(b, e)).mul_fits(a, c)
+        return why
     if k in ("DivisionByZero", "RemainderByZero"):
         d = deep_strip(e["ops"][0])
         # ops[0] is the dividend in rustc's message; find the divisor from the statement that follows
@@ -203,8 +278,14 @@ def auto_discharge(b, e):
             return f"div_ceil by the non-zero constant {const_of(d)}"
         if is_call(d, "NonZero::get"):
             return "div_ceil by NonZero::get(): divisor type excludes zero"
+        if Bounds(_F(b, e)).nonzero(d):
+            return "div_ceil by a divisor shown non-zero by the dominating facts"
         return None
     if k == "index" and len(e["ops"]) == 2:
+        from ..bounds import container
+        B = Bounds(_F(b, e))
+        if deep_strip(e["ops"][1])[0] != 'agg' and B.lt(e["ops"][1], ('len', container(e["ops"][0]))):
+            return f"index `{tstr(deep_strip(e['ops'][1]))[:60]}` < len of the indexed collection by interval / ordering closure (search results, range items, dominating facts)"
         from ..pat import unref
         cont, idx = unref(e["ops"][0]), unref(e["ops"][1])
         if idx[0] == 'ok' and is_call(unref(idx[1]), "binary_search_by_key", "binary_search_by", "binary_search"):
@@ -214,11 +295,21 @@ def auto_discharge(b, e):
             if hay == cont and hay[0] == 'field' and unref(hay[1])[0] == 'param' and not _mutable_self(b, unref(hay[1])[1]):
                 return "index is the Ok(i) of a binary search over the same (immutably borrowed) vector: i < len"
         return None
+    if k == "vec_op" and e.get("callee", "").split("::")[-1] in ("insert", "remove", "swap_remove") and len(e["ops"]) >= 2:
+        from ..bounds import container
+        B = Bounds(_F(b, e))
+        ln_ = ('len', container(e["ops"][0]))
+        nm = e["callee"].split("::")[-1]
+        if (B.le(e["ops"][1], ln_) if nm == "insert" else B.lt(e["ops"][1], ln_)):
+            return f"Vec::{nm} at an index {'<=' if nm == 'insert' else '<'} len of that vector by interval / ordering closure"
+        return None
     if k == "BoundsCheck":
         ln_, idx = e["ops"]
-        facts = b.facts_at(e["pos"])
+        facts = _F(b, e)
         if implies_lt(facts, idx, ln_):
             return "dominated by index < len"
+        if Bounds(facts).lt(idx, ln_):
+            return f"index `{tstr(deep_strip(idx))[:60]}` < len by interval / ordering closure over the dominating facts"
         return None
     return None
 
@@ -271,10 +362,53 @@ def fact_str(r):
 
 
 def edge_facts(b, e):
-    """the relations known at an edge, in the term space its signature is written in"""
+    """the relations known at an edge, in the term space its signature is written in; plus what an item of an integer range
+    satisfies by construction (lo <= item < hi) for every such item among the operands"""
     if e.get("lifted") and b.kind == "Closure":
-        return effects.facts_in_parent(effects.Effects(b.prog), b, e["pos"])
-    return b.facts_at(e["pos"])
+        facts = list(effects.facts_in_parent(effects.Effects(b.prog), b, e["pos"]))
+    else:
+        facts = list(b.facts_at(e["pos"]))
+    from ..bounds import _range_of_item, norm
+    seen = set()
+    for o in e.get("ops") or ():
+        for x in subterms(deep_strip(o)):
+            if x[0] == 'ok' and x not in seen:
+                seen.add(x)
+                rg = _range_of_item(norm(x))
+                if rg:
+                    lo, hi, inc = rg
+                    facts.append(('cmp', 'Le' if inc else 'Lt', x, hi))
+                    facts.append(('cmp', 'Ge', x, lo))
+    return facts
+
+
+def _semantic_need(b, e, row, m):
+    """the needed fact of a table row, when it has the form `Lt({n}, X)` / `Le({n}, X)`, may also follow from the ordering closure
+    (e.g. n is the item of `lo..min(X, ..)`) instead of being a literal dominating comparison"""
+    need = row[5]
+    mm = re.fullmatch(r"(Lt|Le)\\\(\{(\w+)\},(.+)\\\)", need)
+    if not mm or not e.get("ops"):
+        return False
+    rel, grp, other_rx = mm.group(1), mm.group(2), mm.group(3)
+    want = (m.groupdict() or {}).get(grp)
+    if want is None:
+        return False
+    facts = edge_facts(b, e)
+    B = Bounds(facts)
+    pool = []
+    for o in e["ops"]:
+        pool.extend(subterms(deep_strip(o)))
+    for r in facts:
+        if r[0] == 'cmp':
+            pool.extend(subterms(deep_strip(r[2])))
+            pool.extend(subterms(deep_strip(r[3])))
+    ns = [x for x in pool if sig(x) == want]
+    others = [x for x in pool if re.fullmatch(other_rx, sig(x))]
+    for n_ in ns[:4]:
+        for o_ in others[:8]:
+            if (B.lt(n_, o_) if rel == "Lt" else B.le(n_, o_)):
+                return True
+    return False
 
 
 def table_lookup(b, fnkey, e):
@@ -288,7 +422,7 @@ def table_lookup(b, fnkey, e):
                 # `{n}` in the needed fact stands for the named group (?P<n>..) of the signature: the SAME term must be guarded
                 for g, v in (m.groupdict() or {}).items():
                     need = need.replace("{" + g + "}", re.escape(v or ""))
-                if not re.search(need, fs):
+                if not re.search(need, fs) and not _semantic_need(b, e, row, m):
                     continue
             return row
     return None
@@ -301,6 +435,8 @@ def loops_of(prog, b):
     for (u, v) in b.loops():
         hdrs.setdefault(v, []).append(u)
     for h, latches in sorted(hdrs.items()):
+        if _foreign_block(b, h):
+            continue        # the loop of an inlined KNOWN function: classified in that function's own body
         # blocks of the loop: those that can reach a latch without leaving through h ... approximate: dominated by h and can reach h
         # natural loop: h plus every block that reaches a latch without passing through h
         blocks = [h] + [x for x in b.live_blocks() if x != h and any(u in b.reachable(x, removed_nodes=(h,)) for u in latches)]
@@ -324,7 +460,14 @@ def loops_of(prog, b):
                 # that scalar (up to 2^64): the loop must leave early on a comparison of the loop variable with a size that is
                 # NOT caller-supplied (a field / a container length), or the bound must be clamped to such a size
                 bounds = _range_bounds(it)
-                from_param = any(s2[0] == 'param' and b.local_ty(s2[1]).k == 'prim' for x in bounds for s2 in subterms(deep_strip(x)))
+                # only the END of the range decides how long it runs (a caller-supplied START can only shorten it); an end with a small
+                # constant upper bound (e.g. a bit count) is harmless too
+                ends = bounds[-1:]
+                from_param = any(s2[0] == 'param' and b.local_ty(s2[1]).k == 'prim' for x in ends for s2 in subterms(deep_strip(x)))
+                if from_param and ends:
+                    u = Bounds(b.facts_at(c.pos)).ub(ends[0])
+                    if u is not None and u <= 4096:
+                        from_param = False
                 if from_param:
                     var = ('ok', deep_strip(b.call_term(c.t, c.pos, 0)))
                     exits = []
@@ -407,6 +550,7 @@ def run(ctx, progs):
     for cfg, prog in progs.items():
         ctx.config = cfg
         eff = effects.Effects(prog)
+        contract_kinds(prog)
         n_bodies = n_edges = n_auto = n_tab = 0
         n_loops = 0
         for b in prog.bodies:
@@ -430,6 +574,10 @@ def run(ctx, progs):
                     if d is not None and any(r[0] == 'cmp' and r[1] == 'Ne' and r[2] == d and r[3] == ('const', 0) for r in facts):
                         n_auto += 1
                         ctx.ob("A4.auto", inst, True, where, "divisor dominated by a `!= 0` branch fact")
+                        continue
+                    if d is not None and Bounds(facts).nonzero(d):
+                        n_auto += 1
+                        ctx.ob("A4.auto", inst, True, where, "divisor is non-zero (constant / interval / dominating fact)")
                         continue
                 why = auto_discharge(b, e)
                 if why:
